@@ -135,8 +135,13 @@ class NPMixin:
                 if x.step is not None:
                     raise Unsupported('strided n-d slice')
                 lo, hi = self.slice_bounds(x, b.shape[k])
-                outshape.append(z3.simplify(z3.If(hi > lo, hi - lo, 0)))
+                outshape.append(b.shape[k] if (x.lo is None and x.hi is None) else z3.simplify(z3.If(hi > lo, hi - lo, 0)))
                 fixed.append(('s', lo))
+            elif isinstance(x, Arr) and x.kind == 'int' and x.ndim == 1:
+                jq = z3.Int('j!g')
+                self.emit(self.site('index', node), st, z3.ForAll([jq], z3.Implies(z3.And(jq >= 0, jq < x.shape[0]), z3.And(x[jq] >= 0, x[jq] < b.shape[k]))))
+                outshape.append(x.shape[0])
+                fixed.append(('a', x))
             elif isinstance(x, Arr):
                 raise Unsupported('fancy n-d index')
             else:
@@ -145,7 +150,12 @@ class NPMixin:
             vs = list(vs)
             idx = []
             for kind, v in fixed:
-                idx.append(v if kind == 'i' else v + vs.pop(0))
+                if kind == 'i':
+                    idx.append(v)
+                elif kind == 'a':
+                    idx.append(v[vs.pop(0)])
+                else:
+                    idx.append(v + vs.pop(0))
             return b[tuple(idx)]
         return self.new_obj(st, self.lam(f, tuple(outshape), b.kind))
 
@@ -155,7 +165,7 @@ class NPMixin:
             if not (z3.is_int_value(step) and step.as_long() == 1):
                 return self.strided_read(b, sl, st, node)
         lo, hi = self.slice_bounds(sl, b.shape[0])
-        n = z3.simplify(z3.If(hi > lo, hi - lo, 0))
+        n = b.shape[0] if (sl.lo is None and sl.hi is None) else z3.simplify(z3.If(hi > lo, hi - lo, 0))
         if b.ndim == 1:
             a = self.lam(lambda i: b[lo + i], (n,), b.kind)
         else:
@@ -210,8 +220,20 @@ class NPMixin:
                 new.init = z3.Lambda([z3.Int('i!0')], z3.Or(ix[z3.Int('i!0')], arr.init[z3.Int('i!0')]))
             st.heap[base.oid] = new
             return st
+        if isinstance(ix, Arr) and ix.kind == 'int' and ix.ndim == 1 and not isinstance(vv, (Arr, MaskedSel)):
+            # a[idx] = scalar : every row (1-d: cell) whose index occurs in idx
+            jq = z3.Int('j!g')
+            self.emit(self.site('index', node), st, z3.ForAll([jq], z3.Implies(z3.And(jq >= 0, jq < ix.shape[0]), z3.And(ix[jq] >= 0, ix[jq] < arr.shape[0]))))
+            val = self.num(vv, arr.kind)
+            if arr.ndim == 1:
+                new = self.lam(lambda a_: z3.If(self.L.member(ix, a_), val, arr[a_]), arr.shape, arr.kind)
+            else:
+                new = self.lam(lambda a_, *r_: z3.If(self.L.member(ix, a_), val, arr[(a_,) + tuple(r_)]), arr.shape, arr.kind)
+            new.meta = arr.meta
+            st.heap[base.oid] = new
+            return st
         if isinstance(ix, Arr) and ix.kind == 'int':
-            raise Unsupported('fancy-index store')
+            raise Unsupported('fancy-index store of an array value')
         if isinstance(ix, Slice):
             if ix.step is not None:
                 raise Unsupported('strided slice store')
@@ -229,10 +251,51 @@ class NPMixin:
                 new.init = z3.Lambda([i0], z3.Or(z3.And(lo <= i0, i0 < hi), arr.init[i0]))
             st.heap[base.oid] = new
             return st
+        if isinstance(ix, Tup) and getattr(ix, 'where_mask', None) is not None and arr.ndim == 2:
+            # a[np.where(mask)] = v  ==  a[mask] = v
+            m = ix.where_mask
+            self.emit(self.site('shape', node), st, z3.And(m.shape[0] == arr.shape[0], m.shape[1] == arr.shape[1]))
+            if isinstance(vv, (Arr, MaskedSel)):
+                raise Unsupported('array value in where-indexed store')
+            new = self.lam(lambda a_, b_: z3.If(m[a_, b_], self.num(vv, arr.kind), arr[a_, b_]), arr.shape, arr.kind)
+            new.meta = arr.meta
+            st.heap[base.oid] = new
+            return st
         if isinstance(ix, Tup):
             items = [self.deref(st, x) for x in ix.items]
             if len(items) != arr.ndim:
                 raise Unsupported('partial n-d store')
+            full = lambda x: isinstance(x, Slice) and x.lo is None and x.hi is None and x.step is None
+            intarr = lambda x: isinstance(x, Arr) and x.kind == 'int' and x.ndim == 1
+            if arr.ndim == 2 and not isinstance(vv, (Arr, MaskedSel)) and ((full(items[0]) and intarr(items[1])) or (intarr(items[0]) and full(items[1]))
+                                                                            or (intarr(items[0]) and intarr(items[1]) and items[0] is items[1])):
+                val = self.num(vv, arr.kind)
+                ia = items[1] if full(items[0]) else items[0]
+                jq = z3.Int('j!g')
+                dim = 1 if full(items[0]) else 0
+                self.emit(self.site('index', node), st, z3.ForAll([jq], z3.Implies(z3.And(jq >= 0, jq < ia.shape[0]), z3.And(ia[jq] >= 0, ia[jq] < arr.shape[dim]))))
+                if full(items[0]):        # a[:, idx] = v
+                    new = self.lam(lambda a_, b_: z3.If(self.L.member(ia, b_), val, arr[a_, b_]), arr.shape, arr.kind)
+                elif full(items[1]):      # a[idx, :] = v
+                    new = self.lam(lambda a_, b_: z3.If(self.L.member(ia, a_), val, arr[a_, b_]), arr.shape, arr.kind)
+                else:                     # a[idx, idx] = v  (paired: the diagonal cells at idx)
+                    new = self.lam(lambda a_, b_: z3.If(z3.And(a_ == b_, self.L.member(ia, a_)), val, arr[a_, b_]), arr.shape, arr.kind)
+                new.meta = arr.meta
+                st.heap[base.oid] = new
+                return st
+            if arr.ndim == 2 and all(isinstance(x, Arr) and x.meta.get('arange') for x in items):
+                # a[(arange(n), arange(n))] = vec : the diagonal
+                n0 = items[0].shape[0]
+                self.emit(self.site('shape', node), st, z3.And(items[1].shape[0] == n0, n0 <= arr.shape[0], n0 <= arr.shape[1]))
+                if isinstance(vv, Arr):
+                    self.emit(self.site('shape', node), st, vv.shape[0] == n0)
+                    val = lambda k: self.num(vv[k], arr.kind)
+                else:
+                    val = lambda k: self.num(vv, arr.kind)
+                new = self.lam(lambda a_, b_: z3.If(z3.And(a_ == b_, a_ < n0), val(a_), arr[a_, b_]), arr.shape, arr.kind)
+                new.meta = arr.meta
+                st.heap[base.oid] = new
+                return st
             if all(not isinstance(x, (Slice, Arr)) for x in items):
                 ii = [self.norm_index(x, arr.shape[k], st, node) for k, x in enumerate(items)]
                 st.heap[base.oid] = Arr(z3.Store(arr.term, *ii, self.num(v, arr.kind)), arr.shape, arr.kind,
